@@ -118,6 +118,8 @@ def validate(trace_path):
 
 def run(d, srcs, dialects="all", nsh=8, tag="be"):
     """srcs: [{"id", "src"} | {"id", "rq"}].  -> {"rejects": [...], "drift": [...], counters}"""
+    nd = 12 if dialects == "all" else len(dialects.split(","))
+    nsh = max(nsh, len(srcs) * nd // 15000 + 1)          # keep a trace shard small enough for one TLC run
     per = (len(srcs) + nsh - 1) // nsh
     shards = [srcs[i * per:(i + 1) * per] for i in range(nsh)]
     shards = [s for s in shards if s]
